@@ -40,3 +40,173 @@ func init() {
 		},
 	})
 }
+
+// applyUDPFaultProfile draws one datagram fault profile (swarm style).
+func applyUDPFaultProfile(s *spec.RunSpec, r *simnet.Rng, liveness bool) {
+	n := &s.Net
+	profiles := []string{"udp-clean", "udp-light", "udp-light", "udp-heavy", "udp-bursty", "udp-partition", "udp-targeted", "udp-targeted"}
+	prof := profiles[r.Intn(len(profiles))]
+	s.Profile = prof
+	switch prof {
+	case "udp-clean":
+	case "udp-light":
+		n.DropRate = 0.01 + 0.05*r.Float()
+		n.DupRate = 0.03 * r.Float()
+		n.DelayRate = 0.08 * r.Float()
+		n.MaxDelayUs = int64(r.Pick(2000, 20000, 100000))
+	case "udp-heavy":
+		n.DropRate = 0.05 + 0.25*r.Float()
+		n.DupRate = 0.2 * r.Float()
+		n.DelayRate = 0.2 * r.Float()
+		n.MaxDelayUs = int64(r.Pick(20000, 200000, 2000000))
+		n.CorruptRate = 0.03 * r.Float()
+	case "udp-bursty":
+		n.DropRate = 0.02
+		k := 1 + r.Intn(4)
+		for i := 0; i < k; i++ {
+			from := int64(r.Intn(8000000))
+			n.Blackholes = append(n.Blackholes, spec.Blackhole{Client: -1, Dir: r.Pick(-1, 0, 1), FromUs: s.StartOffsetUs + from, ToUs: s.StartOffsetUs + from + int64(r.Pick(5000, 50000, 300000, 1500000))})
+		}
+	case "udp-partition":
+		from := int64(r.Pick(0, 1000, 50000, 500000, 3000000))
+		n.Blackholes = append(n.Blackholes, spec.Blackhole{Client: -1, Dir: r.Pick(-1, -1, 0, 1), FromUs: s.StartOffsetUs + from, ToUs: s.StartOffsetUs + from + int64(r.Pick(1000000, 5000000, 12000000, 20000000))})
+	case "udp-targeted":
+		k := 1 + r.Intn(3)
+		for i := 0; i < k; i++ {
+			rule := spec.DgramRule{Client: -1, Dir: r.Intn(2), Index: -1}
+			rule.Match = []string{"openreq", "openresp", "closereq", "closeresp", "ack", "anydata", "anydata", "data:1", "data:2", "data:3"}[r.Intn(10)]
+			rule.Kind = []string{"drop", "drop", "dup", "delay", "corrupt"}[r.Intn(5)]
+			rule.Nth = r.Pick(0, 0, 1, 2, r.Intn(20))
+			rule.Count = r.Pick(1, 1, 2, 3)
+			if rule.Match == "ack" && rule.Kind == "drop" {
+				rule.Count = r.Pick(1, 5, 50, 300)
+			}
+			if rule.Kind == "delay" {
+				rule.ArgUs = int64(r.Pick(500, 5000, 50000, 500000, 2000000))
+			}
+			if rule.Kind == "dup" {
+				rule.Copies = r.Pick(1, 1, 2, 5)
+				rule.ArgUs = int64(r.Pick(1, 1000, 100000))
+			}
+			if rule.Kind == "corrupt" {
+				rule.Off = int64(r.Intn(1300))
+				rule.Xor = byte(1 << r.Intn(8))
+			}
+			n.Rules = append(n.Rules, rule)
+		}
+	}
+	if liveness {
+		// Fairness budgets (DESIGN §2.3): this check's definition of a fair share.
+		n.MaxDropPerSeg = 4
+		n.MaxHandshakeDrops = 2
+		if n.DropRate > 0 || n.DupRate > 0 || n.DelayRate > 0 || n.CorruptRate > 0 {
+			n.HealUs = s.StartOffsetUs + int64(r.Pick(2000000, 10000000, 30000000, 60000000))
+		}
+		// targeted drops of one segment stay within the same budget
+		for i := range n.Rules {
+			if n.Rules[i].Kind == "drop" || n.Rules[i].Kind == "corrupt" {
+				if n.Rules[i].Match != "ack" && n.Rules[i].Count > 2 {
+					n.Rules[i].Count = 2
+				}
+				if n.Rules[i].Match == "openreq" || n.Rules[i].Match == "openresp" {
+					n.Rules[i].Count = 1
+				}
+			}
+			if n.Rules[i].Kind == "delay" && n.Rules[i].ArgUs > 500000 {
+				n.Rules[i].ArgUs = 500000
+			}
+		}
+		// bound: 120 virtual seconds + 10x the loss-free transfer time at 16 segments per round trip
+		total := int64(sumAll(s))
+		rtt := 2 * (n.LatencyUs + n.JitterUs)
+		segs := total/1100 + 1
+		s.Liveness = &spec.Liveness{BoundUs: 120000000 + 10*(segs/16+1)*rtt}
+	}
+}
+
+func init() {
+	register(&propDef{
+		id: "C02", level: "exploration", quickRuns: 192, thoroughRuns: 4000, wallPerRun: 5 * time.Minute,
+		rule: "Each run: 1-3 real clients x 1-4 sessions over the UDP transport (MTU 1280-1500, random traffic patterns incl. low entropy) with one datagram fault profile: clean, light or heavy random loss/duplication/delay-reorder/corruption, bursts, a partition of up to 20 s, or targeted faults on named datagrams (open request/response, nth data segment, acks, close). Offset-exact stream oracle at every Read; progress oracle under explicit fairness budgets (<=4 drops per segment, <=2 faults per handshake, faults stop at a recorded heal instant): every byte is read within 120 virtual s + 10x the loss-free transfer time after the heal.",
+		assumptions: []string{"'fair share' is defined by the budgets recorded in each spec (net.maxDropPerSeg, net.maxHandshakeDrops, net.healUs, blackholes <= 20 s)", "UDP semantics are those of the simnet model", "a clean batch is evidence, not proof"},
+		components:  realComponents,
+		gen: func(master uint64, idx int, tier string) *spec.RunSpec {
+			seed := runSeed(master, "C02", idx)
+			r := simnet.NewRng(seed, "c02")
+			maxBytes := r.Pick(2000, 20000, 100000, 300000)
+			if tier == "thorough" {
+				maxBytes = r.Pick(2000, 20000, 100000, 300000, 512<<10)
+			}
+			s := genStreamSpec("C02", seed, streamGenOpts{transport: "udp", maxBytes: maxBytes, maxSessions: 4, closeMode: "barrier", rich: true})
+			applyUDPFaultProfile(s, r, true)
+			return s
+		},
+	})
+	register(&propDef{
+		id: "C03", level: "exploration", quickRuns: 192, thoroughRuns: 4000, wallPerRun: 5 * time.Minute,
+		rule: "Each run: one side writes n bytes (1 B-1 MiB, boundary biased) in 1-6 successful writes and calls Close after a delay in {0, 50us, 1ms, RTT, random}; the peer reads until EOF or error. Both roles, both transports, 1-3 sessions. UDP: loss/duplication/reordering of datagrams in flight at close time (random and targeted at the last data segments and the close request); TCP: re-chunking, back-pressure, slow links. Oracle: the peer reads all n bytes before EOF, or gets an error; clean EOF after a strict prefix is the violation.",
+		assumptions: []string{"only the direction written by the closing side is judged", "a clean batch is evidence, not proof"},
+		components:  realComponents,
+		gen: func(master uint64, idx int, tier string) *spec.RunSpec {
+			seed := runSeed(master, "C03", idx)
+			r := simnet.NewRng(seed, "c03")
+			tr := []string{"tcp", "udp", "udp"}[r.Intn(3)]
+			maxBytes := r.Pick(1, 1500, 20000, 100000, 300000)
+			if tier == "thorough" {
+				maxBytes = r.Pick(1, 1500, 20000, 100000, 300000, 1<<20)
+			}
+			s := genStreamSpec("C03", seed, streamGenOpts{transport: tr, maxBytes: maxBytes, maxSessions: 3, closeMode: "afterwrite", rich: r.Bool(0.5)})
+			rtt := 2 * s.Net.LatencyUs
+			for ci := range s.Clients {
+				for si := range s.Clients[ci].Sessions {
+					se := &s.Clients[ci].Sessions[si]
+					se.CloseDelayUs = int64(r.Pick(0, 0, 50, 1000, int(rtt), r.Intn(int(3*rtt)+1)))
+				}
+			}
+			if tr == "udp" {
+				applyUDPFaultProfile(s, r, false)
+				if r.Bool(0.4) {
+					// faults aimed at the datagrams in flight at close time
+					s.Net.Rules = append(s.Net.Rules, spec.DgramRule{Client: -1, Dir: r.Intn(2), Index: -1, Match: "closereq", Kind: []string{"drop", "dup", "delay"}[r.Intn(3)], ArgUs: int64(r.Pick(1000, 50000, 500000)), Copies: 1, Count: 1})
+				}
+				s.Profile = "c03-" + s.Profile
+			} else {
+				s.Profile = "c03-tcp"
+				if r.Bool(0.4) {
+					s.Net.BytesPerSec = int64(r.Pick(20000, 100000, 1000000))
+				}
+			}
+			return s
+		},
+	})
+}
+
+func init() {
+	c02 := func() *propDef { return props["C02"] }
+	register(&propDef{
+		id: "C13", level: "exploration", quickRuns: 192, thoroughRuns: 4000, wallPerRun: 5 * time.Minute,
+		rule: "Runs are drawn from the C02 and C03 generators (all UDP fault profiles, with and without fairness budgets). On every emitted datagram the tap (reference decoder) checks: (1) the cumulative ack it carries does not exceed the in-order prefix of the opposite direction that simnet has already DELIVERED to the emitting endpoint; (2) every retransmission of a (session, direction, seq) carries the same type, fragment number and plaintext payload as its first transmission; (3) first transmissions of open/data segments appear with seq 0,1,2,... without gaps.",
+		assumptions: []string{"close segments and the underlay's session-less close request are exempt from (3): their seq is an ack number by construction", "the reference codec is the trusted base"},
+		components:  realComponents,
+		gen: func(master uint64, idx int, tier string) *spec.RunSpec {
+			var s *spec.RunSpec
+			if idx%3 == 2 {
+				s = props["C03"].gen(master^0x13, idx, tier)
+				for s.Clients[0].Transport != "udp" {
+					idx += 7919
+					s = props["C03"].gen(master^0x13, idx, tier)
+				}
+			} else {
+				s = c02().gen(master^0x13, idx, tier)
+				if idx%3 == 1 {
+					// safety-only: no fairness budgets
+					s.Liveness = nil
+					s.Net.MaxDropPerSeg, s.Net.MaxHandshakeDrops, s.Net.HealUs = 0, 0, 0
+					s.Profile += "-nobudget"
+				}
+			}
+			s.Property = "C13"
+			return s
+		},
+	})
+}
